@@ -9,11 +9,12 @@ def pairs : List Float → List (Float × Float)
 
 /-- requests (floats as bit patterns):
  `c11const`                                   → earthR earthF earthE
- `c11geo lat lon alt`                         → `_geodetic_to_cartesian` position
+ `c11create latd lond alt`                    → `create_station` from degrees: centre offset (3), orientation matrix (9), stored radians/alt (3)
+ `c11geo lat lon alt`                         → `_geodetic_to_cartesian` position (radians)
  `c11topom lat lon`                           → the 9 entries of `TopocentricOrientation._m`
- `c11topo lat lon alt x y z vx vy vz`         → cartesian (6) then spherical (6) state in the station frame
- `c11back lat lon alt x y z vx vy vz`         → station-frame cartesian state expressed in the parent frame
- `c11meas kind npath lat lon alt x y z vx vy vz` → value of the measure (0 Range 1 Azimut 2 Elevation 3 Doppler)
+ `c11topo latd lond alt x y z vx vy vz` (degrees, as given to create_station)         → cartesian (6) then spherical (6) state in the station frame
+ `c11back latd lond alt x y z vx vy vz`         → station-frame cartesian state expressed in the parent frame
+ `c11meas kind npath latd lond alt x y z vx vy vz` → value of the measure (0 Range 1 Azimut 2 Elevation 3 Doppler)
  `c11expand m00 … m22 r0 r1 r2 x y z vx vy vz` → `expand(m, rate) @ state`
  `c11mask n a1 e1 … an en azim`               → `get_mask(azim)` or `index-error` -/
 def handle : List String → Option String
@@ -22,24 +23,31 @@ def handle : List String → Option String
     match takeFloats 3 rest with
     | some ([lat, lon, alt], []) => fsToStr (geodeticToCartesian lat lon alt)
     | _ => "bad-op"
+  | "c11create" :: rest => some <|
+    match takeFloats 3 rest with
+    | some ([latd, lond, alt], []) =>
+      let c := createStation latd lond alt
+      fsToStr (c.1 ++ c.2.1.flatten ++ c.2.2)
+    | _ => "bad-op"
   | "c11topom" :: rest => some <|
     match takeFloats 2 rest with
     | some ([lat, lon], []) => fsToStr (topoM lat lon).flatten
     | _ => "bad-op"
   | "c11topo" :: rest => some <|
     match takeFloats 9 rest with
-    | some ([lat, lon, alt, x, y, z, vx, vy, vz], []) =>
-      let c := toStation lat lon alt [x, y, z, vx, vy, vz]
+    | some ([latd, lond, alt, x, y, z, vx, vy, vz], []) =>
+      let c := toStation (stationRadians latd) (stationRadians lond) alt [x, y, z, vx, vy, vz]
       fsToStr (c ++ toSpherical c)
     | _ => "bad-op"
   | "c11back" :: rest => some <|
     match takeFloats 9 rest with
-    | some ([lat, lon, alt, x, y, z, vx, vy, vz], []) => fsToStr (fromStation lat lon alt [x, y, z, vx, vy, vz])
+    | some ([latd, lond, alt, x, y, z, vx, vy, vz], []) =>
+      fsToStr (fromStation (stationRadians latd) (stationRadians lond) alt [x, y, z, vx, vy, vz])
     | _ => "bad-op"
   | "c11meas" :: kind :: npath :: rest => some <|
     match kind.toNat?, npath.toNat?, takeFloats 9 rest with
-    | some k, some np, some ([lat, lon, alt, x, y, z, vx, vy, vz], []) =>
-      if k < 4 then fToStr (stationMeasure k np.toFloat lat lon alt [x, y, z, vx, vy, vz]) else "bad-op"
+    | some k, some np, some ([latd, lond, alt, x, y, z, vx, vy, vz], []) =>
+      if k < 4 then fToStr (stationMeasure k np.toFloat (stationRadians latd) (stationRadians lond) alt [x, y, z, vx, vy, vz]) else "bad-op"
     | _, _, _ => "bad-op"
   | "c11expand" :: rest => some <|
     match takeFloats 18 rest with
